@@ -68,7 +68,9 @@ theorem mutation_returns_retry (c : Cfg) (t : JVal) (cluster : Option JVal) (r :
     simp only [pass, passAbsent] at hr
     split at hr
     · simp only [List.mem_singleton] at hr; subst hr; simp at hmut
-    · simp only [List.mem_singleton] at hr; subst hr; exact ⟨_, rfl, rfl⟩
+    · split at hr
+      · simp only [List.mem_singleton] at hr; subst hr; simp at hmut
+      · simp only [List.mem_singleton] at hr; subst hr; exact ⟨_, rfl, rfl⟩
   | some live =>
     have hcorrect : ∀ r, r = correct c t live → (r.reqs ≠ [] ∨ r.cluster ≠ some live) →
         ∃ d, configuredDelay c (some live) = some d ∧ r.outcome = .retry d := by
@@ -125,10 +127,15 @@ theorem patch_pass_reaches_target (c : Cfg) (t live : JVal) (d : JVal) (h : Targ
 /-- creation: when what the create overlay produced does not contradict the target (explicit
     hypothesis `hm`; `create_plain` below shows it holds when there is no create overlay), the pass
     sends exactly one POST, reports Retry with the create delay, and the stored object meets the target -/
-theorem create_reaches_target (c : Cfg) (t body la : JVal)
+theorem create_reaches_target (c : Cfg) (t body la : JVal) (he : c.createEnabled = true)
     (hb : prepareForApi c.codec c.createView = some body) (hm : Meets t body la) :
     pass c t none = [⟨some body, .retry c.createDelay, [.post body]⟩] ∧ Meets t body la := by
-  simp [pass, passAbsent, hb, hm]
+  simp [pass, passAbsent, he, hb, hm]
+
+/-- a function that may not create (`create.enabled: false`) never writes for an absent object: it waits -/
+theorem no_create_when_disabled (c : Cfg) (t : JVal) (he : c.createEnabled = false) :
+    pass c t none = [⟨none, .retry (.int loadRetryDelay), []⟩] := by
+  simp [pass, passAbsent, he]
 
 /-- without a create overlay the created object is the payload, which meets the target -/
 theorem create_plain (c : Cfg) (t : JVal) (h : TargetOk t) (hv : c.createView = t) :
@@ -153,11 +160,11 @@ theorem no_update_loop (c : Cfg) (t live : JVal) (d : JVal) (h : TargetOk t)
 
 /-- after a create whose object meets the target the next pass mutates nothing -/
 theorem no_update_loop_after_create (c : Cfg) (t body la : JVal) (hw : DirectivesWF t)
-    (hb : prepareForApi c.codec c.createView = some body) (hm : Meets t body la)
+    (he : c.createEnabled = true) (hb : prepareForApi c.codec c.createView = some body) (hm : Meets t body la)
     (hla : extractLastApplied c.codec body = some la) (ho : ownerOk c = true) :
     ∀ r ∈ pass c t none, pass c t r.cluster = [⟨some body, .okLive body, []⟩] := by
   intro r hr
-  rw [(create_reaches_target c t body la hb hm).1, List.mem_singleton] at hr
+  rw [(create_reaches_target c t body la he hb hm).1, List.mem_singleton] at hr
   subst hr
   exact no_mutation_at_target c t body la hw hla hm ho
 
